@@ -85,6 +85,8 @@ pub struct Case11 {
     pub layout: Vec<Vec<usize>>,
     pub reports: usize,
     pub seed: u64,
+    /// gateway active-work window (None: the fixture's default)
+    pub active: Option<usize>,
 }
 
 type Outputs = Vec<Vec<Out<usize>>>;
@@ -93,6 +95,9 @@ async fn world_run<const S: usize>(c: &Case11, reg: Arc<KeyRegistry<KeyPair>>, e
     let mut config = TestWorldConfig::default();
     config.seed = c.seed;
     config.timeout = None;
+    if let Some(a) = c.active {
+        config.gateway_config.active = a.try_into().unwrap();
+    }
     let world: TestWorld<WithShards<S>> = TestWorld::with_shards(&config);
     let ctxs = world.malicious_contexts();
     let mut futs: Vec<BoxFut<'_, usize>> = Vec::new();
@@ -244,13 +249,15 @@ fn run() {
         let mut bases: Vec<Vec<Vec<usize>>> = vec![(0..shards).map(|s| (0..n).filter(|i| i % shards == s).collect()).collect()];
         if shards > 1 {
             bases.push((0..shards).map(|s| if s == shards - 1 { vec![n - 1] } else if s == 0 { (0..n - 1).collect() } else { vec![] }).collect());
+            // dry shards: all reports on the first / on the last shard (the copies of a duplicated report
+            // are routed by its tag, possibly to a shard that has no input of its own)
+            bases.push((0..shards).map(|s| if s == 0 { (0..n).collect() } else { vec![] }).collect());
+            bases.push((0..shards).map(|s| if s == shards - 1 { (0..n).collect() } else { vec![] }).collect());
         }
         for base in bases {
-            if base.iter().any(Vec::is_empty) {
-                continue; // every shard needs a declared size >= 1
-            }
+            // (a shard without input declares size 1 and sends an empty body)
             // negative arm
-            cases.push(Case11 { shards, layout: base.clone(), reports: n, seed: seed + 50 });
+            cases.push(Case11 { shards, layout: base.clone(), reports: n, seed: seed + 50, active: None });
             // one duplicated report: every report x every shard for the copy x front / back
             for d in 0..n {
                 for s2 in 0..shards {
@@ -260,7 +267,7 @@ fn run() {
                         }
                         let mut l = base.clone();
                         if front { l[s2].insert(0, d) } else { l[s2].push(d) }
-                        cases.push(Case11 { shards, layout: l, reports: n, seed: seed + 51 });
+                        cases.push(Case11 { shards, layout: l, reports: n, seed: seed + 51, active: None });
                     }
                 }
             }
@@ -269,11 +276,11 @@ fn run() {
                 let mut l = base.clone();
                 l[shards - 1].push(0);
                 l[shards - 1].push(0);
-                cases.push(Case11 { shards, layout: l, reports: n, seed: seed + 52 });
+                cases.push(Case11 { shards, layout: l, reports: n, seed: seed + 52, active: None });
                 let mut l = base.clone();
                 l[0].push(1);
                 l[shards - 1].push(2);
-                cases.push(Case11 { shards, layout: l, reports: n, seed: seed + 53 });
+                cases.push(Case11 { shards, layout: l, reports: n, seed: seed + 53, active: None });
             }
         }
     }
@@ -293,6 +300,35 @@ fn run() {
             Err(e) => {
                 let kind = if duplicated(c).is_empty() { "false-rejection" } else { "duplicate-not-rejected" };
                 r.violation(&format!("dup:{kind}:S{}", c.shards), &e, json!({"part":"duplicates","layout":c.layout,"shards":c.shards,"seed":c.seed}));
+            }
+        }
+    }
+    // ---- copies further apart than the active-work window ------------------------------------------------
+    // one shard, a gateway window of 16 records, 18 (40) distinct reports and a second copy of report
+    // 0 / 1 / the middle one at the end, and the duplicate-free input of the same size
+    {
+        let m = if thorough { 40usize } else { 18 };
+        let many = make_reports(m, seed + 2, &reg);
+        let mut far: Vec<Case11> = vec![Case11 { shards: 1, layout: vec![(0..m).collect()], reports: m, seed: seed + 60, active: Some(16) }];
+        for d in [0usize, 1, m / 2, m - 1] {
+            let mut l: Vec<usize> = (0..m).collect();
+            l.push(d);
+            far.push(Case11 { shards: 1, layout: vec![l], reports: m, seed: seed + 61, active: Some(16) });
+            let mut l: Vec<usize> = (0..m).collect();
+            l.insert(0, d);
+            far.push(Case11 { shards: 1, layout: vec![l], reports: m, seed: seed + 62, active: Some(16) });
+        }
+        let res: Vec<Outputs> = rt.block_on(async { futures::future::join_all(far.iter().map(|c| dispatch(c, Arc::clone(&reg), &many, Duration::from_secs(60), Duration::from_millis(1500)))).await });
+        for (c, o) in far.iter().zip(&res) {
+            r.inc("evaluations");
+            r.inc("distinct_nontrivial");
+            r.inc("far_apart_runs");
+            match judge(c, &many, o) {
+                Ok(k) => r.inc(k),
+                Err(e) => {
+                    let kind = if duplicated(c).is_empty() { "false-rejection" } else { "duplicate-not-rejected" };
+                    r.violation(&format!("dup:{kind}:far-apart"), &e, json!({"part":"duplicates","layout_len":c.layout[0].len(),"duplicated":duplicated(c),"active":16}));
+                }
             }
         }
     }
